@@ -10,7 +10,7 @@ RULE = ('every clause body tree with <= N operators from , ; -> \\+ over the 8 l
         'c(..,Z):-m(Z),p(..). plus a dynamic fact p(7..), in 6 context variants: with / without a two-solution goal to '
         'the LEFT of the body x 0, 1 or 2 goals to its RIGHT (thorough, 3 operators: 2 of the 6 variants; and a second '
         'script adding p(6..) without overwrite); compiled, loaded into a fresh engine, query c(A1..Ak,Z) run twice '
-        'and compared answer by answer with RefProlog; plus cuts behind a head that may not match: every pair of the 13 head-argument shapes (repeated variables, constants, structures, lists) x every body of <= 1 operator over {! o m fail} with a cut, followed by a catch-all clause, queried with every pair of 6 argument shapes. states = distinct answer sequences; '
+        'and compared answer by answer with RefProlog; plus every body with N+1 operators over the cut-focused leaves {! m(Vi) z} (2 context variants; thorough 1); plus cuts behind a head that may not match: every pair of the 13 head-argument shapes (repeated variables, constants, structures, lists) x every body of <= 1 operator over {! o m fail} with a cut, followed by a catch-all clause, queried with every pair of 6 argument shapes. states = distinct answer sequences; '
         'transitions = next() calls on the real engine; non-trivial = at least one answer')
 ASSUMPTIONS = ['RefProlog (mc/refprolog.py) implements standard cut semantics',
                'cuts in the condition of -> or under \\+ are outside the property and skipped',
@@ -23,7 +23,36 @@ def bounds(tier):
 
 def plan(tier):
     maxops = 2 if tier == 'quick' else 3
-    return [(k, treecheck.NSHARDS, maxops, tier) for k in range(treecheck.NSHARDS)] + [('heads', k, 32, tier) for k in range(32)]
+    return ([(k, treecheck.NSHARDS, maxops, tier) for k in range(treecheck.NSHARDS)] + [('heads', k, 32, tier) for k in range(32)]
+            + [('focus', k, 32, tier) for k in range(32)])
+
+
+# ---- deeper bodies over a cut-focused alphabet ----------------------------------------------
+# one more operator than the full alphabet allows, over the three leaves that decide what a cut
+# prunes: the cut itself, a goal with alternatives, a goal without solution
+FOCUS = ['!', 'm', 'z']
+
+
+def run_focus(spec):
+    from ..diff import account
+    from ..runner import Acc
+    _, k, n, tier = spec
+    acc = Acc()
+    nops = 3 if tier == 'quick' else 4
+    variants = [dict(), dict(prefix=True, suffix=1)] if tier == 'quick' else [dict(prefix=True, suffix=1)]
+    for idx, t in enumerate(bodies.trees(nops, FOCUS)):
+        if idx % n != k:
+            continue
+        tr, op = bodies.cut_positions(t)
+        if op or not tr:
+            continue
+        for vi, var in enumerate(variants):
+            case = treecheck.tree_case(t, **var)
+            res = case.run()
+            if res['status'] == 'violation':
+                res['sig'] = 'focus:' + res['sig']
+            account(acc, ('F', idx, vi), case, res, key='%s %r' % (bodies.show_tree(t), sorted(var.items())))
+    return acc
 
 
 # ---- cuts behind a head that may not match ---------------------------------------------------
@@ -88,6 +117,8 @@ def select(t):
 def run_shard(spec):
     if spec[0] == 'heads':
         return run_heads(spec)
+    if spec[0] == 'focus':
+        return run_focus(spec)
     k, n, maxops, tier = spec
     # context variants: a goal with alternatives to the left of the body (the cut must discard
     # them) and 0, 1 or 2 goals to its right (they must still backtrack)
